@@ -131,6 +131,27 @@ Theorem c02_check_sound : forall c, check c = [] <-> obs_good c.
 Proof. exact check_spec. Qed.
 Print Assumptions c02_check_sound.
 
+(* FROM AGREEMENT TO THE PROPERTY.  If what the implementation did on a scenario
+   (payloads identify the injected messages) agrees with the model of variant f,
+   the checker can only report clause 1 (placeholder) -- and only if f lacks the
+   F02 repair -- or clause 5 (crash) -- and only if f lacks the F03 repair.  So
+   model agreement leaves no room for any other violation of C02, and agreement
+   with the repaired variant means the observation satisfies the property. *)
+Theorem c02_agree_implies_property : forall f c,
+  NoDup (map msg_key (k_msgs c)) ->
+  agree_obs f (config_of c) (k_msgs c) (k_obs c) (k_final c) = true ->
+  forall cl, In cl (check c) ->
+    (cl = 1 /\ fix_f02 f = false) \/ (cl = 5 /\ fix_f03 f = false).
+Proof. exact agree_check. Qed.
+Print Assumptions c02_agree_implies_property.
+
+Theorem c02_agree_repaired_clean : forall c,
+  NoDup (map msg_key (k_msgs c)) ->
+  agree_obs repaired (config_of c) (k_msgs c) (k_obs c) (k_final c) = true ->
+  check c = [].
+Proof. exact agree_repaired_check. Qed.
+Print Assumptions c02_agree_repaired_clean.
+
 (* Satisfiability of the hypotheses: a legitimate message is delivered as itself. *)
 Example c02_authentic_example :
   let c := {| c_tree := two_nodes; c_insts := [0]; c_regs := regs_h1 |} in
